@@ -54,7 +54,6 @@ argument counts (findings_proposed/C51.md):
 """
 from __future__ import annotations
 
-import itertools
 import random
 
 PROP = "C51"
